@@ -3119,7 +3119,9 @@ class Wallet(object):
         for kb in key_balance_list:
             if kb['id'] in self._key_objects:
                 self._key_objects[kb['id']]._balance = kb['balance']
-        self.session.bulk_update_mappings(DbKey, key_balance_list)
+        # Only the balance is updated: the account of a key is not the account of the transaction which pays it
+        self.session.bulk_update_mappings(DbKey, [{'id': kb['id'], 'balance': kb['balance']}
+                                                  for kb in key_balance_list])
         self._commit()
         # The bulk update bypasses the session: reload DbKey objects which are already loaded
         self.session.query(DbKey).filter_by(wallet_id=self.wallet_id).populate_existing().all()
